@@ -1,12 +1,14 @@
 import Goat.Base.Drive
 import Goat.Model.JWS
 import Goat.Model.JWT
+import Goat.Model.NumericDate
 /-
 Driver ops of C02.
 
   c02.jws.make <payload> <raw: bool> <signers: [[protected hdr|null, unprotected hdr|null, key handle] …]> <form: "compact"|"json">
         NewMessage/NewRawMessage, Sign per signer, Compact/MarshalJSON → ok bytes
   c02.jws.remarshal <data>  Parse then MarshalJSON → ok bytes
+  c02.nd.encode <int ns> → ok str ;  c02.nd.decode <str> → ok int ns     (NumericDate text of a time claim)
   c02.jwt.sign <hdr> <claims> <key handle> → ok bytes
   c02.sig.sign <key handle> <input> → ok bytes
   hdr = {"raw":obj,"alg":str,"jku":str?,"jwk":obj?,"kid":str,"x5u":str?,"x5c":[bytes…]?,"x5t":bytes?,
@@ -63,6 +65,11 @@ def ops : OpTable := [
       let msg ← parseJSON (arg a 0).asBytes
       let out ← marshalJSON msg
       pure (.bytes out) : PO Wire).toOp),
+  -- NumericDate codec of a time claim (model of property C10): instant in ns ↔ JSON number text
+  ("c02.nd.encode", fun a =>
+    (PO.ofOutcome ((Model.NumericDate.encode (arg a 0).asInt).bind (fun s => .ok (.str s))) : PO Wire).toOp),
+  ("c02.nd.decode", fun a =>
+    (PO.ofOutcome ((Model.NumericDate.decode (arg a 0).asStr).bind (fun t => .ok (.int t))) : PO Wire).toOp),
   ("c02.jwt.sign", fun a =>
     (do
       let k ← keyOf (arg a 2)
